@@ -1346,7 +1346,7 @@ class Frame:
                 return v
             except Abort:
                 pass
-        if self.I.decide(t, f"ifexp:{n.lineno}"):
+        if self.I.decide(t, f"{self.fi.name}:{n.lineno}"):
             return self.ev(n.body)
         return self.ev(n.orelse)
 
@@ -1354,7 +1354,7 @@ class Frame:
         r = None
         for v in n.values:
             r = self.ev(v)
-            t = self.I.decide(r, f"boolop:{n.lineno}")
+            t = self.I.decide(r, f"{self.fi.name}:{n.lineno}")
             if isinstance(n.op, ast.And) and not t:
                 return r
             if isinstance(n.op, ast.Or) and t:
@@ -1372,7 +1372,7 @@ class Frame:
                 return v
             if isinstance(v, ACond):
                 return ACond("not", v)
-            return not self.I.decide(v, f"not:{n.lineno}")
+            return not self.I.decide(v, f"{self.fi.name}:{n.lineno}")
         if isinstance(v, (AOpq,)):
             return v
         if isinstance(n.op, ast.USub):
